@@ -244,6 +244,11 @@ func newFakeSrv() *fakeSrv {
 				return
 			}
 		}
+		if (st == 429 || st == 413 || st == 503) && seq%2 == 0 {
+			// (servers add this to "try again later" answers; what the uploader does
+			// with a report depends on the status class alone)
+			w.Header().Set("Retry-After", "120")
+		}
 		w.WriteHeader(st)
 	}))
 	return s
